@@ -254,14 +254,17 @@ http_sc_reap(void *arg)
 	nni_aio_fini(&sc->cbaio);
 
 	// Now it is safe to release our reference on the server.
-	nni_mtx_lock(&s->mtx);
-	if (nni_list_node_active(&sc->node)) {
-		nni_list_remove(&s->conns, sc);
+	// (No server yet if http_sconn_init failed.)
+	if (s != NULL) {
+		nni_mtx_lock(&s->mtx);
+		if (nni_list_node_active(&sc->node)) {
+			nni_list_remove(&s->conns, sc);
+		}
+		if (nni_list_empty(&s->conns) && (s->fini)) {
+			nni_reap(&http_server_reap_list, s);
+		}
+		nni_mtx_unlock(&s->mtx);
 	}
-	if (nni_list_empty(&s->conns) && (s->fini)) {
-		nni_reap(&http_server_reap_list, s);
-	}
-	nni_mtx_unlock(&s->mtx);
 
 	NNI_FREE_STRUCT(sc);
 }
